@@ -194,7 +194,16 @@ def gen_conc_case(rng, mode=None):
     mode = mode or rng.choice(["asyncio", "asyncio", "threads"])
     g = GenRun(rng, is_async=True, faults=0.03, awaits=0.6)   # awaits are gates in both modes
     nf = rng.choice([1, 1, 2])
-    prog = g.program(nf=nf, nc=rng.choice([0, 0, 1]))
+    # threads only (__new__ is no coroutine): two callers construct instances of one class that defines __new__, the
+    # first one waits inside an invariant of its new instance while the second one constructs its own
+    newrace = mode == "threads" and rng.random() < 0.3
+    prog = g.program(nf=nf, nc=1 if newrace else rng.choice([0, 0, 1]))
+    while newrace and len(prog["objs"]) < 2:
+        prog = g.program(nf=nf, nc=1)
+    if newrace:
+        prog["classes"][0]["new"] = True
+        prog["classes"][0]["invs"][rng.randrange(len(prog["classes"][0]["invs"]))][0].append(["await", g.next_pt])
+        g.next_pt += 1
     prog["async"] = (mode == "asyncio")
     meths = [["meth", o, m] for o, c in enumerate(prog["objs"]) for m in range(len(prog["classes"][c]["meths"]))]
     # make sure the first function has a suspension point inside a contract or its body
@@ -215,7 +224,7 @@ def gen_conc_case(rng, mode=None):
     # threads only (a constructor is no coroutine): one caller re-runs the constructor of a shared object and waits in
     # there while the others call its methods
     reinit = None
-    if mode == "threads" and prog["objs"] and rng.random() < 0.5:
+    if mode == "threads" and prog["objs"] and not newrace and rng.random() < 0.5:
         reinit = rng.randrange(len(prog["objs"]))
         init = prog["classes"][prog["objs"][reinit]]["init"]
         init[0].append(["await", g.next_pt]); g.next_pt += 1
@@ -224,7 +233,9 @@ def gen_conc_case(rng, mode=None):
     for i in range(ntasks):
         h = rng.choice(["copy", "copy", "fresh"])
         inherit.append(h)
-        if reinit is not None and i == 0:
+        if newrace and i < 2:
+            target = ["new", i]
+        elif reinit is not None and i == 0:
             target = ["init", reinit]
         elif reinit is not None and rng.random() < 0.7:
             target = rng.choice([t for t in meths if t[1] == reinit] or meths)
